@@ -102,6 +102,61 @@ Proof.
   - apply app_rel_refl.
 Qed.
 
+(* the apply loop never runs ahead of the commit index *)
+Lemma applied_do_apply cm s : applied (nd (fst (do_apply cm s))) = applied (nd s).
+Proof.
+  unfold do_apply. destruct (ck cm =? 3).
+  - destruct (self_ver (nd s) <? ca cm); reflexivity.
+  - destruct (membership_of cm) as [[a x]|].
+    + destruct (applied (nd s) <? replay_idx (nd s)); [|reflexivity].
+      unfold do_change_cluster. destruct (xorb a false).
+      * destruct (_ || _); [reflexivity|]. cbn. destruct (role (nd s) =? LEADER); reflexivity.
+      * destruct (self_is x (nd s)); [reflexivity|]. destruct (negb _); reflexivity.
+    + destruct (ck cm =? 0); [|reflexivity]. destruct (cb cm =? 1); reflexivity.
+Qed.
+
+Lemma apply_one_bound en s : applied (nd (fst (apply_one en s))) <= applied (nd s) + 1.
+Proof.
+  unfold apply_one.
+  set (s0 := upd (fun n => n <| wait_commit := adel (eidx en) (wait_commit n) |>) s).
+  pose proof (applied_do_apply (ecmd en) s0) as A.
+  destruct (do_apply (ecmd en) s0) as [s1 ar]. cbn [fst] in A.
+  assert (Hfin : forall r,
+     applied (nd (upd (fun n => n <| applied := applied n + 1 |>)
+        (fold_left (fun s2 tc => if fst tc =? eterm en then fire (snd tc) r SUCCESS s2
+                                 else fire (snd tc) 0 DISCARDED s2)
+                   match aget (eidx en) (wait_commit (nd s)) with Some l => l | None => [] end s1)))
+     <= applied (nd s) + 1).
+  { intros r. rewrite nd_upd.
+    match goal with |- context [fold_left ?f ?l s1] =>
+      assert (Nf : nd (fold_left f l s1) = nd s1)
+        by (apply nd_fold; intros s2 tc; destruct (_ =? _); apply nd_fire); rewrite Nf end.
+    cbn. rewrite A. unfold s0. cbn. lia. }
+  destruct ar; cbn [fst]; auto. rewrite A. unfold s0. cbn. lia.
+Qed.
+
+Lemma apply_list_bound es s : applied (nd (apply_list es s)) <= applied (nd s) + N.of_nat (length es).
+Proof.
+  revert s. induction es as [|en es IH]; intros s; cbn [apply_list length]; [lia|].
+  pose proof (apply_one_bound en s) as A.
+  destruct (apply_one en s) as [s1 go]. cbn [fst] in A.
+  destruct go; [specialize (IH s1)|]; lia.
+Qed.
+
+Lemma ge_count_length l f k : (length (get_entries l (Some f) (Some k) None) <= N.to_nat k)%nat.
+Proof. unfold get_entries. destruct (_ <? _); [cbn; lia|]. apply firstn_le_length. Qed.
+
+Lemma apply_entries_bound e s :
+  applied (nd s) <= commit (nd s) -> applied (nd (fst (apply_entries e s))) <= commit (nd s).
+Proof.
+  intros H. unfold apply_entries. destruct (applied (nd s) <? commit (nd s)) eqn:E; cbn [fst]; auto.
+  apply N.ltb_lt in E.
+  pose proof (apply_list_bound (get_entries (log (nd s)) (Some (applied (nd s) + 1))
+                                  (Some (commit (nd s) - applied (nd s))) None) s) as B.
+  pose proof (ge_count_length (log (nd s)) (applied (nd s) + 1) (commit (nd s) - applied (nd s))) as L.
+  lia.
+Qed.
+
 Section Tick.
 Variable c : conf.
 Variable V : list nid.
@@ -140,11 +195,13 @@ Proof.
   - apply (grow_Ro c (okout c n s)); auto.
 Qed.
 
-Lemma LS_app n s (S S' : Node.S) : LS n s S -> app_rel S S' -> LS n s S'.
+Lemma LS_app n s (S S' : Node.S) :
+  LS n s S -> app_rel S S' -> applied (nd S') <= commit (nd S) -> LS n s S'.
 Proof.
-  intros L (A & B & G). destruct (fvA_eq _ _ A) as (E1 & E2 & E3 & E4 & E5 & E6 & E7 & E8).
+  intros L (A & B & G) Hac. destruct (fvA_eq _ _ A) as (E1 & E2 & E3 & E4 & E5 & E6 & E7 & E8).
+  destruct (rv_eq _ _ E3) as (_ & _ & _ & _ & _ & Ec & _).
   apply (LS_keep n s S S'); auto.
-  - destruct (LS_h _ _ _ _ _ L) as [B1 B2 B3 B4 B5 B6 B7]. constructor; try congruence. lia.
+  - destruct (LS_h _ _ _ _ _ L) as [B1 B2 B3 B4 B5 B6 B7 B8]. constructor; try congruence; lia.
   - eapply grow_mono; [|exact G]. intros o. apply nosend_okout.
 Qed.
 
@@ -287,7 +344,8 @@ Lemma sim_tick_tail n :
 Proof.
   intros S s L.
   pose proof (apply_entries_spec e S (H_rinv _ _ (LS_h _ _ _ _ _ L))) as A.
-  destruct (apply_entries e S) as [S1 need]. cbn [fst] in A.
+  pose proof (apply_entries_bound e S (H_ac _ _ (LS_h _ _ _ _ _ L))) as Bd.
+  destruct (apply_entries e S) as [S1 need]. cbn [fst] in A, Bd.
   assert (L1 : LS n s S1) by (eapply LS_app; eauto).
   destruct (ok S1); [|intros _; exists s; split; [constructor|exact L1]].
   assert (T : simc n (tick_send e need ;; tick_ready ;; check_commands e ;; try_compact e)).
